@@ -90,7 +90,7 @@ class C16(Cfg):
         path = os.path.join(work, "enum16_%s.ops" % tier)
         lib.sh([dv, "enum16", "--tier", tier, "--out", path], check=True)
         res.append(("all phase interleavings of 2-3 mutations (%s families) + mutation_stream" % tier, path, True))
-        n = 200 if tier == "quick" else 4000
+        n = 200 if tier == "quick" else 3000
         path = os.path.join(work, "random16.ops")
         lib.sh([dv, "gen16", "--seed", str(seed), "--n", str(n), "--out", path], check=True)
         res.append(("random mutations and schedules seed=%d n=%d" % (seed, n), path, False))
@@ -171,7 +171,11 @@ class C16(Cfg):
                             "acknowledged mutations moved row %d to room %s, yet the row is in room %s (%s)" % (
                                 key, sorted(rooms), r["room"], outs[-1])))
                 return res
-        res.append(("non-serialisable-outcome", "acknowledged %s; final %s is none of the %d serial outcomes" % (acked, outs[-1], len(outcomes))))
+        # every field value and every reference of the final row was produced by some acknowledged mutation, but
+        # not by one serial order: e.g. a `pet: null` planned when there was nothing to remove, written after
+        # another mutation had set the reference, together with its own (whole-row) field values
+        res.append(("mixed-state-after-overlapping-reads",
+                    "acknowledged %s, reads overlapped the writes; final %s is none of the %d serial outcomes" % (acked, outs[-1], len(outcomes))))
         return res
 
 
